@@ -1923,6 +1923,9 @@ func (s *Netceptor) runProtocol(ctx context.Context, sess BackendSession, bi *Ba
 		logger:           s.Logger,
 	}
 	ci.Context, ci.CancelFunc = context.WithCancel(ctx)
+	// Whatever ends this session, its reader, writer and initial-message goroutines must
+	// end with it; they only ever stop on ci.Context.
+	defer ci.CancelFunc()
 	go ci.protoReader(sess)
 	go ci.protoWriter(sess)
 	initDoneChan := make(chan bool)
